@@ -90,6 +90,11 @@ impl Check for ModelCheck {
         let sim = draw_sim(&mut rng.fork("sim"), true);
         let feats = self.features(&mut rng.fork("swarm"));
         let mut g = Gen::new(rng.fork("queries"), &tables, feats);
+        g.cte_bias = self.focus == Focus::Subqueries && rng.fork("ctebias").chance(1, 3);
+        if g.cte_bias {
+            g.f.cte = true;
+            g.f.union = true;
+        }
         g.max_product = if knobs.batch_size < 16 { 600 } else if knobs.batch_size < 1024 { 4000 } else { 40_000 };
         let chunk = 1 + rng.fork("chunk").usize_below(9);
         let mut stmts = knobs.set_stmts();
